@@ -17,6 +17,8 @@ from vlib import rnd_u64, U64, xhex
 
 THEOREMS = ["C13_received_report_refers", "C13_depends_only_on_ident", "C13_injective_outside_known", "C13_iff_outside_known", "C13_refuted", "C13_fragment_collides",
             "C13_known_none_name_narrow", "C13_refbundle"]
+REPEAT = 2            # case lines repeated 66 000 times on one thread (state that builds up over many calls)
+REPEAT_CMDS = ('ID',)
 RELEASE = True          # debug and release builds of the harness (debug_assert!, overflow checks, cfg(debug_assertions))
 RULE = ("IDPAIR: (a) adversarial re-splittings of one ID text 'T-n1-n2[-n3]' into (source, time, seq[, offset]) at every dash, sources "
         "and services containing '-' and digits, numeric fields that are prefixes/suffixes of one another, fragment vs non-fragment, "
@@ -31,8 +33,8 @@ FRAG = 0x1
 OTHER_FLAGS = [0x2, 0x4, 0x20, 0x40, 0x4000, 0x10000, 0x20000, 0x40000]
 _P = {}
 
-NODES = [b"n", b"node1", b"a-5", b"n-1", b"1", b"12", b"-", b"--", b"5-1", b"x-1-2", b"0", b"n-", b"-n", b"none", b"", b"a.b", b"10-2"]
-SVCS = [b"", b"a", b"a-5", b"a-5-1", b"a-", b"-5", b"5", b"1-2-3", b"-", b"a-5-1-2", b"svc-01", b"a-05", b"a/b-1", b"~g-7", b"0-0", b"a-5x"]
+NODES = [b"n", b"node1", b"a-5", b"n-1", b"1", b"12", b"-", b"--", b"5-1", b"x-1-2", b"0", b"n-", b"-n", b"none", b"", b"a.b", b"10-2", b"n%2D1", b"a%41", b"GW1", b"gw1"]
+SVCS = [b"", b"a", b"a-5", b"a-5-1", b"a-", b"-5", b"5", b"1-2-3", b"-", b"a-5-1-2", b"svc-01", b"a-05", b"a/b-1", b"~g-7", b"0-0", b"a-5x", b"a%2Db", b"a%2d5", b"%7Eg", b"my%20in", b"A-5"]
 NUMS = [0, 1, 2, 5, 10, 11, 12, 21, 51, 100, 101, 123, 1234, 2 ** 32, 2 ** 63, U64 - 1, 18446744073709551610]
 
 
